@@ -29,6 +29,9 @@ type caseInfo struct {
 type judge struct {
 	r *vk.Run
 	c caseInfo
+	// validBefore: the case's signed header passed the node's own ValidateBasic before it was encoded. Only then is a
+	// ValidateBasic failure after a path a lost signature; what ValidateBasic demands of a header is not C12's subject.
+	validBefore bool
 }
 
 func encHex(b []byte) string {
@@ -83,8 +86,8 @@ func (j *judge) judgeSH(orig SignedHeaderSpec, refHash []byte, o shObs) {
 	j.r.Hit("same-hash")
 	if orig.Signed {
 		k := poolKeyFor(orig.Signer)
-		if o.Validate != nil {
-			j.viol("signature", typ, o.Path, "ValidateBasic() of the decoded header fails: "+o.Validate.Error(), show, o.Enc)
+		if j.validBefore && o.Validate != nil {
+			j.viol("signature", typ, o.Path, "the header passed ValidateBasic() before the path and fails it after: "+o.Validate.Error(), show, o.Enc)
 			return
 		}
 		ok, err := k.Pub.Verify(o.Payload, o.Got.Signature)
@@ -138,9 +141,12 @@ func (j *judge) refCheckSH(orig SignedHeaderSpec, real *types.SignedHeader) bool
 	}
 	j.r.Hit("ref-hash")
 	if orig.Signed {
-		if err := real.ValidateBasic(); err != nil {
-			j.viol("signature", "SignedHeader", "before-encoding", "a header signed by the harness over the reference encoding does not pass ValidateBasic: "+err.Error(), showSignedHeader(orig), bz)
-			return false
+		// the signature was made by the harness over the reference encoding, which MarshalBinary was just seen to
+		// equal; whether the node's ValidateBasic also likes the header (height, chain id, ... rules) is recorded
+		// only, and decides whether ValidateBasic is consulted after the paths
+		j.validBefore = real.ValidateBasic() == nil
+		if !j.validBefore {
+			j.r.Count("observation:generated-signed-header-refused-by-ValidateBasic-before-encoding", 1)
 		}
 	}
 	return true
@@ -350,6 +356,9 @@ func runCase(ctx context.Context, r *vk.Run, c caseInfo, gb *gobBatch) {
 			}
 		}
 		gb.add(gobItem{j: j, sh: &sh, d: &d, rh: rh, rd: rd}, dataSize(d))
+		if sh.Signed && c.Seed%3 == 0 {
+			j.customPayload(ctx, sh, d)
+		}
 	case "data":
 		d := g.data()
 		rd := d.Real()
@@ -417,6 +426,15 @@ func runCase(ctx context.Context, r *vk.Run, c caseInfo, gb *gobBatch) {
 			return
 		}
 		j.hit("roundtrip", "Metadata", "binary")
+		if ou, ok := metadataUsed(o.Enc); ok {
+			if ou.Err != nil {
+				j.viol("roundtrip", "Metadata", "binary into a used receiver", "decode failed: "+ou.Err.Error(), showMetadata(&m), o.Enc)
+			} else if d := diffMetadata(m, ou.Got); len(d) > 0 {
+				j.viol("roundtrip", "Metadata", "binary into a used receiver", "decoded value differs (original != decoded): "+fmt.Sprint(d), showMetadata(&m), o.Enc)
+			} else {
+				j.hit("roundtrip", "Metadata", "binary into a used receiver")
+			}
+		}
 	case "signeddata":
 		s := g.signedData()
 		real := s.Real()
@@ -461,6 +479,20 @@ func runCase(ctx context.Context, r *vk.Run, c caseInfo, gb *gobBatch) {
 			}
 			r.Hit("signature")
 		}
+		if ou, ok := signedDataUsed(o.Enc); ok {
+			switch {
+			case ou.Err != nil:
+				j.viol("roundtrip", "SignedData", ou.Path, "decode failed: "+ou.Err.Error(), showSignedData(s), o.Enc)
+			case len(diffSignedData(s, ou.Got)) > 0:
+				j.viol("roundtrip", "SignedData", ou.Path, "decoded value differs (original != decoded): "+fmt.Sprint(diffSignedData(s, ou.Got)), showSignedData(s), o.Enc)
+			case !bytes.Equal(ou.Hash, refDataHash(s.Data)):
+				j.viol("same-hash", "SignedData", ou.Path, fmt.Sprintf("Hash() after the path is %x, reference is %x", ou.Hash, refDataHash(s.Data)), showSignedData(s), o.Enc)
+			case !bytes.Equal(ou.Commit, refCommitment(s.Data.Txs)):
+				j.viol("same-commitment", "SignedData", ou.Path, fmt.Sprintf("DACommitment() after the path is %x, reference is %x", ou.Commit, refCommitment(s.Data.Txs)), showSignedData(s), o.Enc)
+			default:
+				j.hit("roundtrip", "SignedData", ou.Path)
+			}
+		}
 	case "state":
 		s := g.state()
 		rb := refState(s)
@@ -470,11 +502,14 @@ func runCase(ctx context.Context, r *vk.Run, c caseInfo, gb *gobBatch) {
 				j.viol("roundtrip", "State", o.Path, "encode/decode failed: "+o.Err.Error(), showState(s), o.Enc)
 				continue
 			}
-			if !bytes.Equal(o.Enc, rb) {
+			if o.Enc == nil {
+				// store path: observed through the store API only
+			} else if !bytes.Equal(o.Enc, rb) {
 				j.viol("ref-bytes", "State", o.Path, fmt.Sprintf("encoding differs from the hand-written protobuf encoding: real=%x reference=%x", o.Enc, rb), showState(s), o.Enc)
 				continue
+			} else {
+				r.Hit("ref-bytes")
 			}
-			r.Hit("ref-bytes")
 			if d := diffState(s, o.Got); len(d) > 0 {
 				j.viol("roundtrip", "State", o.Path, "decoded value differs (original != decoded): "+fmt.Sprint(d), showState(s), o.Enc)
 				continue
@@ -539,4 +574,57 @@ func roundTrips(ctx context.Context, r *vk.Run, n int) {
 	}
 	close(ch)
 	wg.Wait()
+}
+
+// customProvider is a signature payload provider other than the default one (a chain may sign something else than the
+// header's protobuf encoding): a domain tag followed by the header's own binary encoding.
+func customProvider(h *types.Header) ([]byte, error) {
+	bz, err := h.MarshalBinary()
+	if err != nil {
+		return nil, err
+	}
+	return append([]byte("verif-custom-payload/"), bz...), nil
+}
+
+// customPayload: a header signed over a custom payload keeps a valid signature after every path. The provider is not
+// part of the wire value; the node re-attaches it to every header it decodes (SetCustomVerifier) and so does this.
+func (j *judge) customPayload(ctx context.Context, sh SignedHeaderSpec, d DataSpec) {
+	k := poolKeyFor(sh.Signer)
+	payload := append([]byte("verif-custom-payload/"), refHeader(sh.Header)...)
+	sig, err := k.Priv.Sign(payload)
+	if err != nil {
+		return
+	}
+	cs := sh
+	cs.Signature = sig
+	real := cs.Real()
+	real.SetCustomVerifier(customProvider)
+	validBefore := real.ValidateBasic() == nil
+	var obs []shObs
+	for _, o := range signedHeaderWirePaths(real) {
+		obs = append(obs, o)
+	}
+	if so := storePath(ctx, real, d.Real(), refHeaderHash(cs.Header)); so.Err == nil {
+		obs = append(obs, so.ByHeight, so.HeaderOnly, so.ByHash)
+	}
+	for _, o := range obs {
+		if o.Err != nil || len(diffSignedHeader(cs, o.Got)) > 0 {
+			continue // reported by the ordinary clauses on the default-payload twin of this header
+		}
+		dec := o.Got.Real()
+		dec.SetCustomVerifier(customProvider)
+		got, perr := customProvider(&dec.Header)
+		ok, verr := k.Pub.Verify(got, dec.Signature)
+		if perr != nil || verr != nil || !ok {
+			j.viol("signature", "SignedHeader", o.Path+" (custom signature payload)", fmt.Sprintf("a signature made over a custom payload no longer verifies under the signer's key over the custom payload of the decoded header (ok=%v payload-err=%v verify-err=%v)", ok, perr, verr), showSignedHeader(cs), o.Enc)
+			return
+		}
+		if validBefore {
+			if e := dec.ValidateBasic(); e != nil {
+				j.viol("signature", "SignedHeader", o.Path+" (custom signature payload)", "with the custom payload provider attached the header passed ValidateBasic() before the path and fails it after: "+e.Error(), showSignedHeader(cs), o.Enc)
+				return
+			}
+		}
+		j.r.Hit("signature-custom-payload")
+	}
 }
